@@ -78,10 +78,49 @@ func init() {
 					}
 				}
 			}
+			rsizes := []int{256, 1500}
+			if c.Tier == "thorough" {
+				rsizes = []int{64, 256, 1500, 5000}
+			}
+			rorders := []string{"ascending", "descending", "alternating-ends", "middle-out", "strided"}
+			rtotal := 0
+			for _, n := range rsizes {
+				for _, order := range rorders {
+					if r.Found != nil || len(r.Raw) > 0 {
+						break
+					}
+					k, fail := bigTreeRemovals(n, order)
+					rtotal += k
+					if fail != "" {
+						rawViolation(c, r, fail, map[string]any{"keys": n, "removal_order": order})
+					}
+				}
+			}
+			ssizes := []int{32, 64, 256}
+			if c.Tier == "thorough" {
+				ssizes = []int{16, 32, 64, 128, 256, 1024}
+			}
+			sscen := 0
+			for _, n := range ssizes {
+				if r.Found != nil || len(r.Raw) > 0 {
+					break
+				}
+				sc, rm, fail := sparseSurvivorRemovals(n)
+				sscen += sc
+				rtotal += rm
+				if fail != "" {
+					rawViolation(c, r, fail, map[string]any{"keys": n})
+				}
+			}
+			total += rtotal
 			r.States += total
 			r.Transitions += total * 5
 			r.Extra = map[string]any{"large_tree_supplement": map[string]any{"sizes": sizes, "orders": []string{"ascending", "descending", "alternating"}, "probes": total,
-				"note": "fixed large scenarios (not exhaustive): every stored key and every gap of each tree is probed for the 2h+2 / 10h+10 read bounds"}}
+				"note": "fixed large scenarios (not exhaustive): every stored key and every gap of each tree is probed for the 2h+2 / 10h+10 read bounds"},
+				"sparse_survivor_supplement": map[string]any{"sizes": ssizes, "scenarios": sscen,
+					"note": "for every root-to-leaf path of a 2^k-key tree x {leftmost, rightmost} representative per sibling subtree x {ascending, descending}: all other keys removed in one run, AVL bound checked after every removal"},
+				"bulk_removal_supplement": map[string]any{"sizes": rsizes, "removal_orders": rorders, "removals_and_probes": rtotal,
+					"note": "fixed large scenarios: the AVL bound is checked after every single removal until the tree is empty, and on a committed version every quarter"}}
 			r.Samples = append(r.Samples, "large tree: 1500 keys inserted in ascending order, committed in 2 versions; GetProof of every key and gap")
 		}
 		r.Assumptions = []string{"node reads = Get calls on the storage during one lookup on an already opened ImmutableTree, with node cache 0 and fast index off"}
